@@ -645,6 +645,7 @@ impl<'tcx> Cx<'tcx> {
                     "closure"
                 }
             }
+            DefKind::Const { .. } | DefKind::AssocConst { .. } => "const",
             _ => "other",
         };
         j.kv_str("kind", kstr);
@@ -782,8 +783,16 @@ impl<'tcx> Cx<'tcx> {
         let mut first = true;
         for did in tcx.hir_body_owners() {
             let kind = tcx.def_kind(did);
-            if !matches!(kind, DefKind::Fn | DefKind::AssocFn | DefKind::Closure) {
+            let is_const = matches!(kind, DefKind::Const { .. } | DefKind::AssocConst { .. });
+            if !matches!(kind, DefKind::Fn | DefKind::AssocFn | DefKind::Closure) && !is_const {
                 continue;
+            }
+            if is_const {
+                // named constants (e.g. tables of statuses) are dumped too, unless const evaluation already consumed their MIR
+                let (steal, _) = tcx.mir_promoted(did);
+                if steal.is_stolen() {
+                    continue;
+                }
             }
             if !first {
                 j.comma();
